@@ -152,7 +152,10 @@ def check_bs(rng):
                 acc = f"{type(ex).__name__}"
             out.append((tag + f" knots={kn}", "ok" if acc is ok_expected else f"accepted={acc}, expected {ok_expected}"))
     for bad in (dict(df=None, knots=None), dict(df=2.5), dict(df=3, degree=-1), dict(df=3, degree=1.5), dict(df=1, degree=3),
-                dict(df=4, lower_bound=5, upper_bound=1), dict(knots=[[1, 2], [3, 4]]), dict(df=6, knots=[3.0])):
+                dict(df=4, lower_bound=5, upper_bound=1), dict(knots=[[1, 2], [3, 4]]), dict(df=6, knots=[3.0]),
+                # the same invalid values as numpy scalars (what np.sqrt(n), np.mean([...]) hand over)
+                dict(df=np.float64(4.5)), dict(df=4, degree=np.float64(1.5)), dict(df=4, degree=np.float64(-0.5)), dict(df=np.float32(2.5)),
+                dict(df=np.sqrt(20.0))):
         try:
             BSpline()(x, **bad)
             out.append((f"bs(**{bad})", "invalid arguments accepted"))
